@@ -26,8 +26,8 @@ MC_QUICK = [
     dict(W=5, Gap=1, Delay=0, SkipFirst=True, Start=3, MaxNow=11, MaxTrades=3, Back=2),
 ]
 MC_THOROUGH = MC_QUICK + [
-    dict(W=5, Gap=1, Delay=2, SkipFirst=False, Start=0, MaxNow=12, MaxTrades=4, Back=6),
-    dict(W=6, Gap=1, Delay=3, SkipFirst=True, Start=4, MaxNow=14, MaxTrades=3, Back=4),
+    dict(W=5, Gap=1, Delay=2, SkipFirst=False, Start=0, MaxNow=11, MaxTrades=3, Back=5),
+    dict(W=6, Gap=1, Delay=3, SkipFirst=True, Start=4, MaxNow=13, MaxTrades=3, Back=3),
 ]
 
 
